@@ -37,6 +37,16 @@ func (c *Closure) Equals(c1 *Closure) bool {
 	return true
 }
 
+// hash returns a hash of c which is consistent with Equals: if c.Equals(c1) then
+// c.hash() == c1.hash().
+func (c *Closure) hash() uintptr {
+	h := goRuntimeEfaceHash(c.Code, 0)
+	for _, upv := range c.Upvalues {
+		h = goRuntimeEfaceHash(upv.ref, h)
+	}
+	return h
+}
+
 // AddUpvalue append a new upvalue to the closure.
 func (c *Closure) AddUpvalue(cell Cell) {
 	c.Upvalues[c.upvalueIndex] = cell
